@@ -1,7 +1,7 @@
 \* C16 observation mode: env FV_OBS = ndjson file of [id, fam, nax, rules, items]; items are the boxes and
 \* substitution lists returned by the real fontir::feature_variations::overlay_feature_variations; they are
 \* interpreted by the back-end transcription of FeatVars.tla (Font / FontSubs) at every sample point.
-CONSTANT RankFixed = FALSE
+CONSTANT RankFixed = TRUE
 CONSTANT Families <- QuickFamilies
 INIT ObsInit
 NEXT ObsNext
